@@ -586,6 +586,11 @@ func (env *SpecEnv) index(a *SV, i *Term, e *Expr) *SV {
 		}
 	case *types.Array:
 		return &SV{T: Select(a.T, i), Ty: u.Elem()}
+	case *types.Basic:
+		if a.T != nil && a.T.S == SStr {
+			x.eng.DeclareUF("strAt", SBV(8), SStr, SInt)
+			return &SV{T: App("strAt", SBV(8), a.T, i), Ty: types.Typ[types.Uint8]}
+		}
 	}
 	stale("cannot index %s in %s", a.Ty, e)
 	return nil
